@@ -66,6 +66,12 @@ func c08Payload(op string, k int) []byte {
 	case "wP":
 		return c08P
 	}
+	if strings.HasPrefix(op, "wS:") {
+		// "wS:<seed>": 70 000 incompressible bytes of generator seed <seed>
+		var seed int
+		fmt.Sscanf(op[3:], "%d", &seed)
+		return randBytes(2000+seed, 70000)
+	}
 	if strings.HasPrefix(op, "wX:") {
 		// "wX:<n>:<kind>": exactly n bytes of a run / text / incompressible data
 		var n int
@@ -335,6 +341,20 @@ func runC08(r *core.Run) {
 					C08Case{Cfg: c, Hist: []string{"w10", fmt.Sprintf("wX:%d:%s", n-10, kind), "f", "w10", "c"}}, C08Case{Cfg: c, Hist: []string{wx, wx, "f", "c"}})
 			}
 		}
+	}
+	// incompressible chunks of many generator seeds: what the encoder has pending at the moment the
+	// 64 KiB compressed-size limit ends a chunk (the last operation found, the rep distances) differs
+	// from seed to seed; the chunk is then stored raw and everything of the attempt must be forgotten
+	ns := 600
+	if th {
+		ns = 3000
+	}
+	for seed := 0; seed < ns; seed++ {
+		cfg := L2Cfg{}
+		if seed%3 == 1 {
+			cfg = L2Cfg{DictCap: 1 << 20, Matcher: seed % 2}
+		}
+		cases = append(cases, C08Case{Cfg: cfg, Hist: []string{fmt.Sprintf("wS:%d", seed), "w10", "c"}})
 	}
 	// configuration histories: a Writer2Config variable verified with configuration A, then set to B
 	{
